@@ -97,7 +97,7 @@ theorem applyBlock_spec (st : St) (p : Placement) (o : Off) (hinv : Inv st.out o
     ∧ Inv (applyBlock st p).out (o.next p.block)
     ∧ (applyBlock st p).molToOut = addEntries st.molToOut (stepEntries o p)
     ∧ (applyBlock st p).outToMol = addEntriesRev st.outToMol (stepEntries o p)
-    ∧ (applyBlock st p).overlap = unionInt st.overlap (p.atoms.filter (fun a => (dom st.molToOut).contains a))
+    ∧ (applyBlock st p).overlap = unionInt st.overlap (p.atoms.filter (fun a => (dom st.molToOut).contains a || st.placed.any (fun k => k.contains a)))
     ∧ (applyBlock st p).spawned = unionInt st.spawned (stepSpawned o p)
     ∧ (applyBlock st p).placed = st.placed ++ [p.atoms]
     ∧ (applyBlock st p).out.inters = st.out.inters ++ stepInters o p
